@@ -89,13 +89,24 @@ Definition seal_t (s : dst) : dst :=
   {| wn := wn s; cready := cready s; tready := true; est := est s; drdy := drdy s; notified := notified s;
      ctrig := ctrig s; ttrig := ttrig s; bad := bad s; pa := pa s; pcn := pcn s; pt := T1 |}.
 
+(* the return statements of GraphDependency::activate in source order: case -1 returns 1; case 0: acquire failure -1,
+   then 1; case 1: the two acquire failures -1 (no early "ready" return before _target->trigger); the function ends
+   with 0.  The model below is a model of THIS shape only: any other sequence (an inserted / removed / changed return)
+   sends the activator to a flagged sink, which re-opens the protocol theorem. *)
+Definition act_shape_ok : bool :=
+  (act_ret0 =? 1) && (act_ret1 =? -1) && (act_ret2 =? 1) && (act_ret3 =? -1) && (act_ret4 =? -1) && (act_ret5 =? 0).
+Definition flag_bad (s : dst) : dst :=
+  {| wn := wn s; cready := cready s; tready := tready s; est := est s; drdy := drdy s; notified := notified s;
+     ctrig := ctrig s; ttrig := ttrig s; bad := true; pa := ADone; pcn := pcn s; pt := pt s |}.
+
 (* GraphDependency::activate *)
 Definition step_a (c : dcfg) (s : dst) : option dst :=
   match pa s with
   | A0 =>                                   (* fetch_add(inc, acq_rel) + inc ; switch *)
     let w := wn s + dep_inc (cond_ptr c) in
     let s1 := with_wn s w in
-    if w =? case_done_unestablished then Some (with_pa (notify_keep c s1) ADone)              (* return 1 *)
+    if negb act_shape_ok then Some (flag_bad s1)
+    else if w =? case_done_unestablished then Some (with_pa (notify_keep c s1) ADone)              (* return 1 *)
     else if w =? case_done_check then
       let s2 := check_est c s1 in
       if est s2 then Some (with_pa s2 ATgtLoad)                    (* _ready = _target->ready() is next *)
@@ -177,7 +188,9 @@ Definition dep_ok (c : dcfg) (s : dst) : bool :=
      sealed yet, then the target has been pushed for activation (so the graph can make progress) *)
   (negb (match pa s, pcn s with ADone, CDone => true | ADone, C0 => negb (has_cond c) | _, _ => false end
          && est_true c && negb (tready s)) || (1 <=? ttrig s)%nat) &&
-  (-3 <=? wn s) && (wn s <=? 2).
+  (-3 <=? wn s) && (wn s <=? 2) &&
+  (* once the vertex has been told, the dependency is resolved: condition sealed, target sealed if the condition holds *)
+  ((notified s =? 0)%nat || really_ready c s).
 
 (* decidable equality, for the reflective exploration *)
 Definition apc_eqb (a b : apc) : bool :=
@@ -217,6 +230,16 @@ Fixpoint dbfs (fuel : nat) (c : dcfg) (frontier seen : list dst) : list dst :=
 Definition dall (c : dcfg) : list dst := dbfs 64 c [dinit] [dinit].
 Definition dclosed (c : dcfg) (l : list dst) : bool :=
   dmem dinit l && forallb (fun s => forallb (fun s' => dmem s' l) (dsuccs c s)) l.
+
+(* what one protocol step may do to the observable part of a dependency: tell the vertex at most once more, or seal
+   exactly one of the two data (and then tell nobody) *)
+Definition dstep_ok (s s' : dst) : bool :=
+  ((notified s' =? notified s)%nat || (notified s' =? S (notified s))%nat) &&
+  ((Bool.eqb (cready s') (cready s) && Bool.eqb (tready s') (tready s)) ||
+   ((notified s' =? notified s)%nat &&
+    ((cready s' && Bool.eqb (tready s') (tready s)) || (tready s' && Bool.eqb (cready s') (cready s))))).
+Definition dsteps_ok (c : dcfg) (l : list dst) : bool :=
+  forallb (fun s => forallb (dstep_ok s) (dsuccs c s)) l.
 
 (* GraphDependency::reset *)
 Definition dreset (s : dst) : dst :=
@@ -551,3 +574,167 @@ Definition proc_fn (flags : nat -> bool * bool * nat) (v : nat) (ins : list (opt
   let '(canfail, boolean, nem) := flags v in
   let acc := proc_acc v ins in
   if canfail && (acc mod 3 =? 0) then None else Some (proc_outs acc boolean 0 nem).
+
+
+(* ===================================================================================== *)
+(* E. one vertex with n dependencies: DEP for every dependency + the VTX count-down.        *)
+(*    thread 0 = GraphVertex::activate (activates dependency 0, 1, ... in order, then the   *)
+(*    final fetch_sub(finished)); thread 1+2i = releaser of dependency i's condition;       *)
+(*    thread 2+2i = releaser of dependency i's target.  A protocol step that tells the      *)
+(*    vertex performs the vertex's counter operation in the same step (the preceding load   *)
+(*    of _target->ready() reads a flag that is already stable there).                       *)
+(* ===================================================================================== *)
+Definition v_ready (s : vst) (i : nat) : vst :=
+  {| vw := vw s - 1; vfin := vfin s; vended := vended s; vnot := i :: vnot s; vrdy := vrdy s + 1;
+     vinvoked := if vertex_ready_fires (vw s) then S (vinvoked s) else vinvoked s |}.
+Definition v_actret (s : vst) (i : nat) : vst :=
+  {| vw := vw s; vfin := vfin s + 1; vended := vended s; vnot := i :: vnot s; vrdy := vrdy s; vinvoked := vinvoked s |}.
+Definition v_actend (s : vst) : vst :=
+  if vertex_finished_pos (vfin s) then
+    let w := vertex_act_remaining (vw s) (vfin s) in
+    {| vw := vw s - vfin s; vfin := vfin s; vended := true; vnot := vnot s; vrdy := vrdy s;
+       vinvoked := if vertex_act_fires w then S (vinvoked s) else vinvoked s |}
+  else {| vw := vw s; vfin := vfin s; vended := true; vnot := vnot s; vrdy := vrdy s; vinvoked := vinvoked s |}.
+
+Record xst := { xdeps : list dst; xv : vst; xnext : nat }.
+Definition xinit (n : nat) : xst := {| xdeps := repeat dinit n; xv := vinit (Z.of_nat n); xnext := 0 |}.
+
+Fixpoint lset {A} (n : nat) (x : A) (l : list A) : list A :=
+  match l, n with
+  | [], _ => []
+  | _ :: r, O => x :: r
+  | y :: r, S n' => y :: lset n' x r
+  end.
+
+Definition xstep (cs : list dcfg) (s : xst) (t : nat) : option xst :=
+  match t with
+  | O =>
+    if (xnext s <? length cs)%nat then
+      match nth_error cs (xnext s), nth_error (xdeps s) (xnext s) with
+      | Some c, Some d =>
+        match step_a c d with
+        | Some d' =>
+          Some {| xdeps := lset (xnext s) d' (xdeps s);
+                  xv := if (notified d <? notified d')%nat then v_actret (xv s) (xnext s) else xv s;   (* finished += 1 *)
+                  xnext := match pa d' with ADone => S (xnext s) | _ => xnext s end |}
+        | None => None
+        end
+      | _, _ => None
+      end
+    else if vended (xv s) then None
+    else Some {| xdeps := xdeps s; xv := v_actend (xv s); xnext := xnext s |}
+  | S k =>
+    let i := Nat.div2 k in
+    match nth_error cs i, nth_error (xdeps s) i with
+    | Some c, Some d =>
+      match (if Nat.odd k then step_t c d else step_c c d) with
+      | Some d' =>
+        Some {| xdeps := lset i d' (xdeps s);
+                xv := if (notified d <? notified d')%nat then v_ready (xv s) i else xv s;             (* _source->ready(this) *)
+                xnext := xnext s |}
+      | None => None
+      end
+    | _, _ => None
+    end
+  end.
+
+(* what ENG sees of this vertex: which data are sealed, and whether it has been invoked *)
+Definition resolved (c : dcfg) (fl : bool * bool) : bool :=
+  (negb (has_cond c) || fst fl) && (negb (est_true c) || snd fl).
+Definition xproj (s : xst) : list (bool * bool) * nat := (map (fun d => (cready d, tready d)) (xdeps s), vinvoked (xv s)).
+Definition all_resolved (cs : list dcfg) (fls : list (bool * bool)) : bool :=
+  forallb (fun p => resolved (fst p) (snd p)) (combine cs fls).
+Definition xall_done (cs : list dcfg) (s : xst) : bool :=
+  (xnext s =? length cs)%nat && vended (xv s) && forallb (fun p => ddone (fst p) (snd p)) (combine cs (xdeps s)).
+
+(* the flags a dependency has in a data environment e, and its configuration under the eventual values E *)
+Definition is_some {A} (o : option A) : bool := match o with Some _ => true | None => false end.
+Definition is_none {A} (o : option A) : bool := match o with Some _ => false | None => true end.
+Definition dep_cfg (E : env) (dp : dep) : dcfg :=
+  {| has_cond := is_some (cnd dp);
+     holds := match cnd dp with
+              | Some (c, ev) => match E c with Some x => Bool.eqb (truthy x) ev | None => false end
+              | None => false
+              end |}.
+Definition dep_flags (e : env) (dp : dep) : bool * bool :=
+  (match cnd dp with Some (c, _) => is_some (e c) | None => false end, is_some (e (tgt dp))).
+
+(* ===================================================================================== *)
+(* F. ENG with wait(): a run ends when the closure is flushed (wait() returns).  Steps that  *)
+(*    would change nothing (pushing a data that is already pushed) are not steps.           *)
+(* ===================================================================================== *)
+Record tst := { base : est_; flushed : bool }.
+Inductive tev := TBase (e : eev) | TFlush.
+
+Definition running (g : graph) (s : est_) (v : nat) : bool :=      (* invoked, some emit not sealed yet *)
+  match nth_error g v, ran s v with
+  | Some vx, Some r => match res_outs vx r with
+                       | Some _ => existsb (fun d => is_none (dv s d)) (emits vx)
+                       | None => false
+                       end
+  | _, _ => false
+  end.
+Definition trig_of (g : graph) (s : est_) (e : eev) : option nat :=    (* the data an event pushes for activation *)
+  match e with
+  | EWant d => Some d
+  | EDepTrig v i =>
+    match nth_error g v with
+    | Some vx => match nth_error (deps vx) i with
+                 | Some dp => match cnd dp with
+                              | None => Some (tgt dp)
+                              | Some (c, _) => match dv s c with None => Some c | Some _ => Some (tgt dp) end
+                              end
+                 | None => None
+                 end
+    | None => None
+    end
+  | _ => None
+  end.
+Definition tinit : tst := {| base := einit; flushed := false |}.
+
+Definition tstep (f : nat -> list (option Z) -> option (list (option Z))) (g : graph) (pre : list (nat * option Z))
+           (targets : list nat) (s : tst) (e : tev) : option tst :=
+  if flushed s then None else
+  match e with
+  | TFlush =>                              (* depend_vertex_sub reaches 0: notify_flush, wait() returns *)
+    match fin (base s) with
+    | None => None
+    | Some _ => if existsb (running g (base s)) (seq 0 (length g)) then None
+                else Some {| base := base s; flushed := true |}
+    end
+  | TBase e0 =>
+    if match trig_of g (base s) e0 with Some d => trig (base s) d | None => false end then None
+    else match estep f g pre targets (base s) e0 with
+         | Some b => Some {| base := b; flushed := false |}
+         | None => None
+         end
+  end.
+
+Fixpoint trun f g pre targets (s : tst) (l : list tev) : tst :=
+  match l with
+  | [] => s
+  | e :: r => trun f g pre targets (match tstep f g pre targets s e with Some s' => s' | None => s end) r
+  end.
+Fixpoint tsteps f g pre targets (s : tst) (l : list tev) : nat :=       (* number of steps actually taken *)
+  match l with
+  | [] => O
+  | e :: r => match tstep f g pre targets s e with
+              | Some s' => S (tsteps f g pre targets s' r)
+              | None => tsteps f g pre targets s r
+              end
+  end.
+
+Definition ids (g : graph) (pre : list (nat * option Z)) (targets : list nat) : list nat :=
+  targets ++ map fst pre ++
+  flat_map (fun vx => emits vx ++ flat_map (fun dp => tgt dp :: match cnd dp with Some (c, _) => [c] | None => [] end) (deps vx)) g.
+Definition measure (g : graph) (pre : list (nat * option Z)) (targets : list nat) (s : tst) : nat :=
+  (length (filter (fun d => is_none (dv (base s) d)) (ids g pre targets)) +
+   length (filter (fun d => negb (trig (base s) d)) (ids g pre targets)) +
+   length (filter (fun v => negb (act (base s) v)) (seq 0 (length g))) +
+   length (filter (fun v => is_none (ran (base s) v)) (seq 0 (length g))) +
+   (if fin (base s) then 0 else 1) + (if flushed s then 0 else 1))%nat.
+
+(* Graph::reset + a fresh closure: the per-run state of every data / vertex / dependency is cleared *)
+Definition ereset (s : est_) : est_ :=
+  {| dv := fun _ => None; trig := fun _ => false; act := fun _ => false; ran := fun _ => None; fin := None;
+     taint := fun _ => false; nrel := fun _ => O |}.
